@@ -56,7 +56,10 @@ RULE_ADDED = (
               '.31 bytes (Ledger and SGX). '
               ' '
               'Round 16: operator key files in hybrid and mixed notations; an attested hash of '
-              'the keys as spelled in the file. ')
+              'the keys as spelled in the file. '
+              ' '
+              'Round 17: one more key under another spelling (h / H markers, leading zero, uppe'
+              'r-case M) of a listed path. ')
 RULE = RULE + " " + RULE_ADDED.strip()
 ASSUMPTIONS = [
     "stdout of the commands is parsed by label ('UD value:', 'Hash:', ...)",
@@ -140,7 +143,9 @@ LEDGER_VARIANTS = ["genuine", "genuine-reordered", "key-replaced", "btc-key-repl
                    "message-padded-and-a-member-naming-the-good-part",
                    "message-padded-and-a-member-naming-the-good-part",
                    "genuine-with-members-the-format-does-not-define",
-                   "keys-hash-equal-only-in-part", "keys-hash-equal-only-in-part"]
+                   "keys-hash-equal-only-in-part", "keys-hash-equal-only-in-part",
+                   "key-added-under-another-spelling-of-a-listed-path",
+                   "key-added-under-another-spelling-of-a-listed-path"]
 
 
 def tail_bytes(rng, n):
@@ -220,6 +225,18 @@ def ledger_case(acc, rng, variant, tmpdir, case):
         expect_ok = False
     elif variant == "key-added":
         pk["m/44'/2'/0'/0/0"] = g1.pub65(g1.new_key(rng)).hex()
+        expect_ok = False
+    elif variant == "key-added-under-another-spelling-of-a-listed-path":
+        # one more key, under a name that spells one of the operator's paths another way
+        # (h / H for the hardened marker, a leading zero, upper-case M): it is one more key
+        victim = rng.choice(la.PATHS)
+        alias = rng.choice([a_ for a_ in (
+            victim.replace("'", "h"), victim.replace("'", "H"), victim.replace("m/", "M/"),
+            victim.replace("/0'", "/00'", 1), victim + " ", victim.replace("'", "h", 1))
+            if a_ != victim])
+        rogue = {alias: g1.pub65(g1.new_key(rng)).hex()}
+        pk = dict(list(rogue.items()) + list(pk.items())) if rng.random() < 0.5 else \
+            dict(list(pk.items()) + list(rogue.items()))
         expect_ok = False
     elif variant == "key-removed":
         del pk[rng.choice([x for x in la.PATHS if x != la.BTC_PATH])]
@@ -465,6 +482,8 @@ def ledger_case(acc, rng, variant, tmpdir, case):
 SGX_VARIANTS = ["genuine", "genuine-reordered", "key-replaced", "keys-swapped-paths",
                 "keys-hash-equal-only-in-part", "keys-hash-equal-only-in-part",
                 "keys-hash-of-the-keys-as-spelled-in-the-file",
+                "key-added-under-another-spelling-of-a-listed-path",
+                "key-added-under-another-spelling-of-a-listed-path",
                 "key-added", "key-removed", "msg-len+1", "msg-len-1", "msg-len+32",
                 "msg-len-32", "header-dot-wildcard", "header-foreign", "header-major6",
                 "missing-quote-target", "wrong-root", "root-not-self-signed", "root-expired",
@@ -550,6 +569,16 @@ def sgx_case(acc, rng, variant, tmpdir, case):
         expect_ok = False
     elif variant == "key-added":
         pk["m/44'/2'/0'/0/0"] = g1.pub65(g1.new_key(rng)).hex()
+        expect_ok = False
+    elif variant == "key-added-under-another-spelling-of-a-listed-path":
+        victim = rng.choice(la.PATHS)
+        alias = rng.choice([a_ for a_ in (
+            victim.replace("'", "h"), victim.replace("'", "H"), victim.replace("m/", "M/"),
+            victim.replace("/0'", "/00'", 1), victim + " ", victim.replace("'", "h", 1))
+            if a_ != victim])
+        rogue = {alias: g1.pub65(g1.new_key(rng)).hex()}
+        pk = dict(list(rogue.items()) + list(pk.items())) if rng.random() < 0.5 else \
+            dict(list(pk.items()) + list(rogue.items()))
         expect_ok = False
     elif variant == "key-removed":
         del pk[rng.choice(la.PATHS)]
